@@ -574,6 +574,11 @@ def subproc_toks(
             skip_depth = 1
             continue
         if pos < mincol:
+            if tok.type == "RPAREN" and lparens:
+                # Keep the paren stack balanced for tokens left of the
+                # window: the ``(`` / ``!(`` / ``$(`` / ``@(`` this ``)``
+                # closes was pushed above, and nothing else pops it here.
+                lparens.pop()
             continue
         toks.append(tok)
         if tok.type == "WS" and tok.value == "\\":
